@@ -70,7 +70,11 @@ def canon(v):
             return canon(v[()])
         return tuple(canon(v[i]) for i in range(v.shape[0]))
     if isinstance(v, np.generic):
-        return v.item()
+        v = v.item()
+    if isinstance(v, float) and v != v:
+        return "<NaN>"  # nan != nan would make equal values compare unequal
+    if isinstance(v, (int, float, str, bytes, bool)) or v is None:
+        return v
     if isinstance(v, (list, tuple)):
         return tuple(canon(e) for e in v)
     if isinstance(v, dict):
